@@ -109,30 +109,47 @@ class Check:
         cases = list(cases)
         if not cases:
             return
-        reqs = [ALGS[c["alg"]].request(c) for c in cases]
-        answers = model_query(reqs)
-        pending = []      # (line, pred, context)
-        for case, req, ans in zip(cases, reqs, answers):
+        # plan: one model request per (case, ids, contents-flag); identical lines are asked once
+        plan = []
+        lines = {}
+        for case in cases:
             alg = ALGS[case["alg"]]
-            if "bad" in ans:
-                raise InfraError(f"driver rejected request {req!r}: {ans}")
-            self._count(stream, case, ans)
-            self.corr_cases += 1
             for fmt, ot in combos(case, self.rng):
                 names = names_for(fmt, case["vals"], random.Random(sha([case["vals"], fmt])))
-                got = alg.call_impl(case, fmt, ot, names)
-                self.evaluations += 1
-                self.stats[stream][f"fmt:{fmt}"] += 1
-                self.stats[stream][f"out:{ot}"] += 1
-                want = project_model(ans, ot, names)
-                same = relation(case, fmt, ot, got, want, names) if relation else (got == want)
-                if not same:
-                    self.disagreements.append({"stream": stream, "alg": case["alg"], "case": case, "fmt": fmt,
-                                               "outtype": ot, "impl": got, "model": want, "request": req})
-                self.sample({"request": req, "format": fmt, "outputtype": ot, "impl": got, "model": want})
-                if judge:
-                    for line, pred in judge(case, fmt, ot, got, names, ans):
-                        pending.append((line, pred, (case, fmt, ot, got)))
+                ids = ids_for(fmt, case["vals"], names)
+                req = alg.request(case, ids, ot not in SUMS_ONLY)
+                lines.setdefault(req, len(lines))
+                plan.append((case, fmt, ot, names, ids, req))
+        answers = model_query(list(lines))
+        pending = []      # (line, pred, context)
+        counted = set()
+        for case, fmt, ot, names, ids, req in plan:
+            alg = ALGS[case["alg"]]
+            ans = answers[lines[req]]
+            if "bad" in ans:
+                raise InfraError(f"driver rejected request {req!r}: {ans}")
+            if id(case) not in counted:
+                counted.add(id(case))
+                self._count(stream, case, ans)
+                self.corr_cases += 1
+            by_id = {i: nm for i, nm in zip(ids, names)}
+            got = alg.call_impl(case, fmt, ot, names)
+            self.evaluations += 1
+            self.stats[stream][f"fmt:{fmt}"] += 1
+            self.stats[stream][f"out:{ot}"] += 1
+            if alg.relation:
+                want = ans
+                same = alg.relation(case, fmt, ot, got, ans, by_id)
+            else:
+                want = project_model(ans, ot, by_id)
+                same = relation(case, fmt, ot, got, want, by_id) if relation else (got == want)
+            if not same:
+                self.disagreements.append({"stream": stream, "alg": case["alg"], "case": case, "fmt": fmt,
+                                           "outtype": ot, "impl": got, "model": want, "request": req})
+            self.sample({"request": req, "format": fmt, "outputtype": ot, "impl": got, "model": want})
+            if judge:
+                for line, pred in judge(case, fmt, ot, got, names, ans):
+                    pending.append((line, pred, (case, fmt, ot, got)))
         self.run_pending(pending)
 
     def run_pending(self, pending):
